@@ -23,6 +23,11 @@ def obligations(tier):
         obs.append(Ob("C12.a[%s,W=2,T=2,R=1]" % crit, "props.c01:h_loop", p,
                       bounds=dict(W=2, T=2, R=1, K=1, failures="<=1", threshold="0..2", polls="<=10"),
                       goals=("end", "criterion-reached", "exhausted"), split=sp, budget_s=2400))
+    # a trial keeps reporting after the search space is exhausted; the evaluation budget is reached only then
+    p = dict(base, crit="evaluations", R=2, max_fail=0, decisions=["CONTINUE", "STOP"])
+    obs.append(Ob("C12.a[evaluations,W=2,T=2,R=2,stop-only]", "props.c01:h_loop", p,
+                  bounds=dict(W=2, T=2, R=2, K=1, threshold="0..2", decisions="CONTINUE/STOP", polls="<=10"),
+                  goals=("end", "criterion-reached", "exhausted"), split=sp, budget_s=2400))
     p = dict(base, crit="finished", wait=True)
     obs.append(Ob("C12.b[wait_trial_completion,W=2,T=2,R=1]", "props.c01:h_loop", p, bounds=dict(W=2, T=2, R=1, K=1, wait=True),
                   goals=("end", "criterion-reached"), split=sp, budget_s=2400))
